@@ -51,9 +51,9 @@ theorem C09_constructed_default (c : Cache.Ctor) (now : Int) :
   cases c with
   | newOpts d i cb m =>
     cases d <;> cases i <;> cases cb <;> cases m <;>
-      simp [Cache.construct, Cache.newXsyncMap, configDefault_spec, Gen.DefaultConfig_, Gen.NoExpiration, TTL.NoExpiration]
+      simp [Cache.construct, Cache.newXsyncMap, Gen.newXsyncMap_dflt, Gen.newXsyncMap_hasCb, Gen.newXsyncMap_janitor, Gen.NewDefault_cfg, Gen.New_cfg, Gen.WithDefaultExpiration, Gen.WithCleanupInterval, Gen.WithEvictedCallback, Gen.WithMinCapacity, List.foldl, configDefault_spec, Gen.DefaultConfig_, Gen.NoExpiration, TTL.NoExpiration]
   | newDefault d i cb =>
-    simp [Cache.construct, Cache.newXsyncMap, configDefault_spec, TTL.NoExpiration]
+    simp [Cache.construct, Cache.newXsyncMap, Gen.newXsyncMap_dflt, Gen.newXsyncMap_hasCb, Gen.newXsyncMap_janitor, Gen.NewDefault_cfg, Gen.New_cfg, Gen.WithDefaultExpiration, Gen.WithCleanupInterval, Gen.WithEvictedCallback, Gen.WithMinCapacity, List.foldl, configDefault_spec, TTL.NoExpiration]
 
 /-- **re-arming**: after `Set`, `GetAndSet`, `GetAndRefresh` (hit), a storing `Compute`, and a storing
 `GetOrSet`/`GetOrCompute`, the stored instant is `expiration d` of the default and clock *at that call* -/
